@@ -213,7 +213,7 @@ DEFAULT_KNOBS = dict(
     orphans_return=True, txindex=True, urls=1, resegment=True, max_hist_row=None,
     services='tcp://:50001,rpc://:8000', peer_discovery='off', tor_proxy_port=None, session_timeout=10_000_000,
     request_timeout=30, cost_limits=(0, 0), extra_env=None, stall_boost=None, polling_delay=None,
-    refresh_secs=None, protos=None,
+    refresh_secs=None, protos=None, stall_max=None,
 )
 
 
@@ -227,6 +227,8 @@ class World:
                        loop_seam_p=k['loop_seam_p'], trace=trace)
         if k.get('stall_boost'):
             self.sim.stall_boost = tuple(k['stall_boost'])
+        if k.get('stall_max'):
+            self.sim.stall_max = float(k['stall_max'])
         self.fs = seams.SimFS()
         self.fs.sim = self.sim
         self.store = seams.SimDBStore()
